@@ -49,7 +49,9 @@ RULE = ("transparency / re-run: schedules of props/C09.gen_schedule (1/128 s tic
         "sampling, 1..16 increments) x measurement modes {None, [], tables with stamps only outside [start, end), "
         "empty tables} x time_step from 1/8 of the sampling interval to 4x the span x random sensor-model masks "
         "(incl. scale/misalignment) x both altitude modes x model objects fresh / carrying estimates; small-error "
-        "sweep: one 20 s manoeuvring data set per altitude mode, eps in {1, 0.1, 0.01, 0.001}; a case is distinct "
+        "sweep: one 20 s manoeuvring data set per altitude mode with full sensor models + 12 s data sets with fixed partial "
+        "enable masks (bias triads with a leading disabled axis, off-diagonal-only / partial-diagonal scale-misalignment) "
+        "and masks drawn from the whole enable space, eps in {1, 0.1, 0.01, 0.001}; a case is distinct "
         "by (schedule key, masks, flags)")
 
 DEN = B.DEN
@@ -326,8 +328,33 @@ def work_rerun(c):
 EPS = (1.0, 0.1, 0.01, 0.001)
 
 
-def sweep_run(eps, alt, seed, dt=1.0 / 32, T=20.0, step=0.25):
+# enable masks of the two sensor models used by the sweep (bias per axis, scale/misalignment per entry,
+# row-major xx xy xz yx ...).  The fixed ones run on EVERY quick run: partial bias triads whose first
+# enabled axis is preceded by a disabled one (state k is then NOT the bias of axis k), scale/misalignment
+# sets with only off-diagonal / only some diagonal entries.
+MASKS = {
+    'full': dict(gb=[1, 1, 1], ab=[1, 1, 1], gs=[0] * 9, as_=[0] * 9),
+    'g[x.z]a[.yz]': dict(gb=[1, 0, 1], ab=[0, 1, 1], gs=[0] * 9, as_=[0] * 9),
+    'g[.yz]a[x.z]+sm-offdiag': dict(gb=[0, 1, 1], ab=[1, 0, 1], gs=[0, 1, 0, 1, 0, 0, 0, 1, 0], as_=[0, 0, 1, 0, 0, 0, 0, 1, 0]),
+    'g[..z]a[.y.]+sm-diag-partial': dict(gb=[0, 0, 1], ab=[0, 1, 0], gs=[1, 0, 0, 0, 0, 0, 0, 0, 1], as_=[0] * 9),
+}
+FIXED_MASKS = ('g[x.z]a[.yz]', 'g[.yz]a[x.z]+sm-offdiag', 'g[..z]a[.y.]+sm-diag-partial')
+
+
+def mask_of(name):
+    """'rand:<k>' = the k-th mask of the whole enable space drawn deterministically"""
+    if name in MASKS:
+        return MASKS[name]
+    rng = random.Random(int(name.split(':')[1]) * 7919 + 5)
+    return dict(gb=[int(rng.random() < 0.6) for _ in range(3)], ab=[int(rng.random() < 0.6) for _ in range(3)],
+                gs=[int(rng.random() < 0.25) for _ in range(9)], as_=[int(rng.random() < 0.25) for _ in range(9)])
+
+
+def sweep_run(eps, alt, seed, mask='full', dt=1.0 / 32, T=20.0, step=0.25):
     """normalised signed disagreement vectors of one error scale"""
+    mk = mask_of(mask)
+    gb, ab = np.array(mk['gb'], float), np.array(mk['ab'], float)
+    gs, as_ = np.array(mk['gs'], float).reshape(3, 3), np.array(mk['as_'], float).reshape(3, 3)
     import pandas as pd
     from pyins import sim, strapdown, filters, measurements, inertial_sensor, earth
     # without altitude the filters assume level flight (VD = 0, constant altitude): the truth must satisfy it,
@@ -339,8 +366,13 @@ def sweep_run(eps, alt, seed, dt=1.0 / 32, T=20.0, step=0.25):
     dirs = rs.uniform(-1, 1, size=15)
     dirs = np.sign(dirs) * (0.4 + 0.6 * np.abs(dirs))
     imu_e = imu.copy()
-    imu_e[['gyro_x', 'gyro_y', 'gyro_z']] += eps * 1e-4 * dirs[0:3]
-    imu_e[['accel_x', 'accel_y', 'accel_z']] += eps * 0.02 * dirs[3:6]
+    # simulated sensor errors only where the models have a state (all errors scale with eps)
+    sg = np.random.RandomState(2000 + seed).uniform(-1, 1, size=(3, 3))
+    sa = np.random.RandomState(3000 + seed).uniform(-1, 1, size=(3, 3))
+    G_ = np.asarray(imu[['gyro_x', 'gyro_y', 'gyro_z']], dtype=float)
+    A_acc = np.asarray(imu[['accel_x', 'accel_y', 'accel_z']], dtype=float)
+    imu_e[['gyro_x', 'gyro_y', 'gyro_z']] = G_ + G_.dot((eps * 1e-3 * sg * gs).T) + eps * 1e-4 * dirs[0:3] * gb
+    imu_e[['accel_x', 'accel_y', 'accel_z']] = A_acc + A_acc.dot((eps * 1e-3 * sa * as_).T) + eps * 0.02 * dirs[3:6] * ab
     inc = strapdown.compute_increments_from_imu(imu_e, 'rate')
     err = pd.Series(eps * np.array([15, 15, 8, 0.4, 0.4, 0.2, 0.25, 0.25, 0.8]) * dirs[6:15],
                     index=['north', 'east', 'down', 'VN', 'VE', 'VD', 'roll', 'pitch', 'heading'])
@@ -356,8 +388,10 @@ def sweep_run(eps, alt, seed, dt=1.0 / 32, T=20.0, step=0.25):
         return [measurements.Position(pos, eps * 1.0), measurements.NedVelocity(vel, eps * 0.1)]
 
     def models():
-        return (inertial_sensor.EstimationModel(bias_sd=eps * 1e-4, noise=eps * 1e-6, bias_walk=eps * 1e-7),
-                inertial_sensor.EstimationModel(bias_sd=eps * 0.02, noise=eps * 1e-4))
+        return (inertial_sensor.EstimationModel(bias_sd=eps * 1e-4 * gb, noise=eps * 1e-6, bias_walk=eps * 1e-7 * gb,
+                                                scale_misal_sd=eps * 1e-3 * gs),
+                inertial_sensor.EstimationModel(bias_sd=eps * 0.02 * ab, noise=eps * 1e-4,
+                                                scale_misal_sd=eps * 1e-3 * as_))
     sds = (eps * 20, eps * 0.5, eps * 0.3, eps * 1.0)
     g, a = models()
     fb = filters.run_feedback_filter(init, *sds, inc, g, a, measurements=meas(), time_step=step, with_altitude=alt)
@@ -374,12 +408,15 @@ def sweep_run(eps, alt, seed, dt=1.0 / 32, T=20.0, step=0.25):
     Sv = np.asarray(S_, dtype=float)
     keep = [0, 1, 2, 3, 4, 5, 6, 7, 8] if alt else [0, 1, 3, 4, 6, 7, 8]
     vt = (d[:, keep] / Sv[:, keep])[1:]
-    vg = ((np.asarray(fb.gyro.loc[idx]) - np.asarray(ff.gyro.loc[idx])) / np.asarray(ff.gyro_sd.loc[idx]))[1:]
-    va = ((np.asarray(fb.accel.loc[idx]) - np.asarray(ff.accel.loc[idx])) / np.asarray(ff.accel_sd.loc[idx]))[1:]
+    if list(fb.gyro.columns) != list(ff.gyro.columns) or list(fb.accel.columns) != list(ff.accel.columns):
+        raise RuntimeError(f"estimate tables of the two filters have different columns: {list(fb.gyro.columns)} "
+                           f"{list(ff.gyro.columns)} {list(fb.accel.columns)} {list(ff.accel.columns)}")
+    vg = ((np.asarray(fb.gyro.loc[idx], dtype=float) - np.asarray(ff.gyro.loc[idx], dtype=float)) / np.asarray(ff.gyro_sd.loc[idx], dtype=float))[1:]
+    va = ((np.asarray(fb.accel.loc[idx], dtype=float) - np.asarray(ff.accel.loc[idx], dtype=float)) / np.asarray(ff.accel_sd.loc[idx], dtype=float))[1:]
     Sf = np.asarray(fb.trajectory_sd.loc[idx], dtype=float)
     vs = (Sf[:, keep] / Sv[:, keep] - 1.0)[1:]
-    vgs = (np.asarray(fb.gyro_sd.loc[idx]) / np.asarray(ff.gyro_sd.loc[idx]) - 1.0)[1:]
-    vas = (np.asarray(fb.accel_sd.loc[idx]) / np.asarray(ff.accel_sd.loc[idx]) - 1.0)[1:]
+    vgs = (np.asarray(fb.gyro_sd.loc[idx], dtype=float) / np.asarray(ff.gyro_sd.loc[idx], dtype=float) - 1.0)[1:]
+    vas = (np.asarray(fb.accel_sd.loc[idx], dtype=float) / np.asarray(ff.accel_sd.loc[idx], dtype=float) - 1.0)[1:]
     return dict(trajectory=vt, params=np.hstack([vg, va]), sd=np.hstack([vs, vgs, vas]), rows=len(idx))
 
 
@@ -387,11 +424,18 @@ def rms(v):
     return float(np.sqrt(np.mean(np.square(v)))) if v.size else 0.0
 
 
+def sweep_job(alt, seed, mask='full', T=20.0):
+    return (bool(alt), int(seed), str(mask), float(T))
+
+
 def work_sweep(job):
-    alt, seed = job
-    out = dict(status='ok', fails=[], alt=alt, seed=seed)
+    job = tuple(job)
+    alt, seed = job[0], job[1]
+    mask = job[2] if len(job) > 2 else 'full'
+    T = job[3] if len(job) > 3 else 20.0
+    out = dict(status='ok', fails=[], alt=alt, seed=seed, mask=mask, T=T, masks=mask_of(mask))
     try:
-        runs = [sweep_run(e, alt, seed) for e in EPS]
+        runs = [sweep_run(e, alt, seed, mask=mask, T=T) for e in EPS]
         if len({r_['rows'] for r_ in runs}) != 1 or runs[0]['rows'] < 10:
             out['status'] = 'harness-error'
             out['error'] = 'the two filters have too few common rows'
@@ -557,8 +601,9 @@ def process(r, cases, label, max_report=3):
             r.linecov_measured = True
         if isinstance(c, tuple):
             dist[f"sweep:alt={c[0]}"] += 1
-            r.case(('sweep',) + c, sample=dict(sweep=dict(alt=c[0], seed=c[1]), table=o.get('table')))
-            what = dict(sweep=dict(alt=c[0], seed=c[1]))
+            dist["sweep-mask:" + ('random' if str(c[2]).startswith('rand') else str(c[2]))] += 1
+            what = dict(sweep=dict(alt=c[0], seed=c[1], mask=c[2], T=c[3], masks=o.get('masks')))
+            r.case(('sweep',) + tuple(c), sample=dict(what, table=o.get('table')))
         else:
             sc = c['sched']
             for cat in sc.get('cats', []):
@@ -587,6 +632,20 @@ def process(r, cases, label, max_report=3):
     r.log(f"{label}: {len(cases)} cases in {time.time() - t:.1f}s, {nviol} property failure(s), {nbrk} model/harness problem(s)")
     r.coverage.setdefault('correspondence', {})[label] = dict(cases=len(cases), property_failures=nviol, problems=nbrk)
     return results
+
+
+def sweep_jobs(seed, tier, salt=0):
+    """full models in both altitude modes (20 s data set) + the fixed partial masks and masks drawn from the
+    whole enable space (12 s data sets, altitude mode alternating)"""
+    seeds = [seed] if tier == 'quick' else [seed, seed + 1, seed + 2]
+    jobs = [sweep_job(alt, sd + salt) for sd in seeds for alt in (True, False)]
+    k = 0
+    for sd in seeds:
+        names = list(FIXED_MASKS) + [f"rand:{(sd + salt) * 10 + j}" for j in range(1 if tier == 'quick' else 6)]
+        for nm in names:
+            jobs.append(sweep_job((k + sd) % 2 == 0, sd + salt, nm, 12.0))
+            k += 1
+    return jobs
 
 
 def check(r):
@@ -625,9 +684,9 @@ def check(r):
                 c['sched']['epochs'][0] <= t < c['sched']['epochs'][-1] for _, ts in c['sched']['sensors'] for t in ts):
             cases.append(c)
     process(r, cases, 're-run')
-    seeds = [r.seed] if r.tier == 'quick' else [r.seed, r.seed + 1, r.seed + 2]
-    res = process(r, [(alt, sd) for sd in seeds for alt in (True, False)], 'error-scale sweep')
-    r.coverage['error_scale_sweep'] = [dict(alt=o.get('alt'), seed=o.get('seed'), table=o.get('table')) for o in res]
+    res = process(r, sweep_jobs(r.seed, r.tier), 'error-scale sweep')
+    r.coverage['error_scale_sweep'] = [dict(alt=o.get('alt'), seed=o.get('seed'), mask=o.get('mask'), masks=o.get('masks'),
+                                            table=o.get('table')) for o in res]
     cov_finish(r, r.linecov, r.linecov_measured)
     r.coverage['distribution'] = dict(sorted(r.coverage['distribution'].items()))
     if r.tier == 'thorough':
@@ -643,12 +702,13 @@ def falsify(r):
         c = gen_case(rng, 'rerun')
         if c['sched']['meas_mode'] == 'list':
             cases.append(c)
-    cases += [(True, r.seed + 5), (False, r.seed + 5)]
+    cases += sweep_jobs(r.seed, 'quick', salt=5)
     results = run_many(cases)
     found = 0
     for c, o in zip(cases, results):
         if o['fails']:
-            what = dict(sweep=dict(alt=c[0], seed=c[1])) if isinstance(c, tuple) else dict(case=c)
+            what = dict(sweep=dict(alt=c[0], seed=c[1], mask=c[2], T=c[3], masks=o.get('masks'))) if isinstance(c, tuple) \
+                else dict(case=c)
             r.log(f"falsifier: {o['fails'][0]}")
             r.violation(o['fails'][0], dict(what, failures=o['fails']))
             found += 1
@@ -661,8 +721,9 @@ def replay(obj):
     rep = obj.get('replay', obj)
     warm_up()
     if 'sweep' in rep:
-        o = work_sweep((bool(rep['sweep']['alt']), int(rep['sweep']['seed'])))
-        print("error-scale sweep, eps =", list(EPS))
+        sw = rep['sweep']
+        o = work_sweep(sweep_job(sw['alt'], sw['seed'], sw.get('mask', 'full'), sw.get('T', 20.0)))
+        print("error-scale sweep, eps =", list(EPS), "masks:", json.dumps(o.get('masks')))
         print(json.dumps(o.get('table'), indent=1))
     else:
         c = rep['case']
